@@ -153,10 +153,12 @@ ACC1_BELIEF_WEAKER = {
 
 # functions that relocate an unbounded number of elements
 BULK_MOVERS = {
-    "CircularBuffer::remove": "closes the gap left by the removed element (up to len - i elements)",
-    "<Drain<N, T> as Drop>::drop": "back-fills the drained hole (up to len - j elements)",
-    "CircularBuffer::make_contiguous": "rotates the array when the contents wrap",
-    "<CircularBuffer<N, T> as From<[T; M]>>::from": "constructor: copies min(N, M) elements out of the source array",
+    # function -> (number of bulk-move sites the linear bound was reviewed for, why it is within the bound)
+    "CircularBuffer::remove": (3, "closes the gap left by the removed element (up to len - i elements): one copy when the tail is contiguous, "
+                                  "copy + single element + copy when it wraps"),
+    "<Drain<N, T> as Drop>::drop": (1, "back-fills the drained hole with the elements behind it (up to len - j elements), one chunked copy loop"),
+    "CircularBuffer::make_contiguous": (1, "rotates the array when the contents wrap"),
+    "<CircularBuffer<N, T> as From<[T; M]>>::from": (1, "constructor: copies min(N, M) elements out of the source array"),
 }
 
 
